@@ -3,6 +3,7 @@
 //	explore CFG MAXSTATES          -> reachable graph of the real code (JSON on stdout)
 //	random  CFG RUNS SEED OUT      -> seeded random schedules, P-level trace (ndjson)
 //	replay  CFG MOVES.json         -> run one schedule, print events + states (JSON on stdout)
+//	stress  NG NW ITERS SEED ROUNDS -> free-running stress with injected pre-emption (for -race builds)
 //
 // CFG = NW:TARGET:MAXG:MAXF:PRE, e.g. 2:1,1,2:2:2:1 (TARGET: waker of each waker
 // goroutine; PRE=1: wakers attached before the schedule starts; TARGET "r<n>":
@@ -136,8 +137,7 @@ func newSys(c config) *sys {
 func (s *sys) Close() {
 	sl := s.s
 	s.sc.Abandon(func() { sleep.VerifForce(sl) }, func() bool {
-		g, _, _, _ := sleep.VerifSleeperState(sl)
-		return g == sleep.VerifGParked
+		return sleep.VerifWaitingG(sl) == sleep.VerifGParked
 	}, s.parked && !s.parkReg)
 }
 
@@ -386,10 +386,7 @@ func (s *sys) Do(m gate.Move) []gate.Event {
 		case "":
 			if s.pcF == "L5" {
 				var parked, reg bool
-				p, parked, reg = s.sc.GrantPark(0, func() bool {
-					g, _, _, _ := sleep.VerifSleeperState(sl)
-					return g == sleep.VerifGParked
-				})
+				p, parked, reg = s.sc.GrantPark(0, func() bool { return sleep.VerifWaitingG(sl) == sleep.VerifGParked })
 				if parked {
 					s.parked, s.parkReg, s.pcF = true, reg, "parked"
 					return append(evs, s.obsMaybe(false)...)
@@ -639,7 +636,15 @@ func main() {
 		}
 		s.Close()
 		vh.Emit(map[string]interface{}{"steps": out})
+	case "stress":
+		// stress NG NW ITERS SEED ROUNDS
+		ng, nw, it, seed, rounds := atoi(os.Args[2]), atoi(os.Args[3]), atoi(os.Args[4]), atoi(os.Args[5]), atoi(os.Args[6])
+		res := []stressOut{}
+		for k := 0; k < rounds; k++ {
+			res = append(res, stress(ng, nw, it, seed+k))
+		}
+		vh.Emit(map[string]interface{}{"rounds": res})
 	default:
-		vh.Fatal("usage: sleepd explore|random|replay ...")
+		vh.Fatal("usage: sleepd explore|random|replay|stress ...")
 	}
 }
